@@ -473,7 +473,11 @@ impl Prop for C18 {
             if p.exists() {
                 match std::process::Command::new("python3").arg(&p).arg("--check").output() {
                     Ok(o) if o.status.success() => {}
-                    Ok(o) => errs.push(format!("tools/gen_ucd.py --check: {}", String::from_utf8_lossy(&o.stdout).trim())),
+                    Ok(o) => errs.push(format!(
+                        "tools/gen_ucd.py --check: {} {}",
+                        String::from_utf8_lossy(&o.stdout).trim(),
+                        String::from_utf8_lossy(&o.stderr).trim().lines().last().unwrap_or("")
+                    )),
                     Err(e) => errs.push(format!("tools/gen_ucd.py --check could not run: {e}")),
                 }
                 let (x, y, z) = char::UNICODE_VERSION;
